@@ -11,7 +11,7 @@ RULE = ("every string up to the length bound over alphabets of 1..4 letters (and
         "find_neighbor_pairs_index, calculate_neighbor_numbers, isdist1; nndist_hamming over all 4-letter strings x all reference subsets; "
         "non-trivial = non-empty expected neighbourhood")
 ASSUMPTIONS = ["alphabets of more than 4 letters only through the default 20-letter alphabet on short strings"]
-REQUIRED_CLASSES = {"all": ["empty-string", "homopolymer", "repeated-run", "letter-outside-alphabet", "position-subset", "default-20-letter-alphabet", "nndist-cutoff", "mixed-length-reference", "more-than-255-neighbours", "one-shot-iterator-positions", "neighbourhood-with-repeats", "empty-reference", "query-longer-than-every-reference", "interleaved-generators", "stored-set-neighbourhood"]}
+REQUIRED_CLASSES = {"all": ["empty-string", "homopolymer", "repeated-run", "letter-outside-alphabet", "position-subset", "default-20-letter-alphabet", "nndist-cutoff", "mixed-length-reference", "more-than-255-neighbours", "one-shot-iterator-positions", "neighbourhood-with-repeats", "empty-reference", "query-longer-than-every-reference", "interleaved-generators", "stored-set-neighbourhood", "find_neighbor_pairs-list-with-repeats"]}
 MIN_OUTCOMES = 10
 AA = "ACDEFGHIKLMNPQRSTVWY"
 
@@ -202,6 +202,15 @@ def check_case(case, acc):
                         acc.fail("find_neighbor_pairs/%s/second-use-of-the-same-set" % nb, case, {"pairs": sorted(map(sorted, exp_pairs)), "numbers": e_n}, {"pairs": r2, "numbers": n2})
                         return
                 acc.ok()
+            # a list in which sequences recur (clone copies): every unordered pair of DISTINCT sequences is still listed once
+            if seqs:
+                acc.cls("find_neighbor_pairs-list-with-repeats")
+                for variant in ([s for x in seqs for s in (x, seqs[0])], [s for x in seqs for s in (x, x)], seqs + seqs[::-1], [seqs[-1]] + seqs):
+                    r = acc.call(pyrepseq.find_neighbor_pairs, list(variant), f)
+                    if raised(r) or len(r) != len(exp_pairs) or {frozenset(p) for p in r} != exp_pairs:
+                        acc.fail("find_neighbor_pairs/%s/list-with-repeats" % nb, case, sorted(map(sorted, exp_pairs)), r, note="seqs=%r" % (variant,))
+                        return
+                    acc.ok()
             exp_idx = {(i, j) for i in range(len(seqs)) for j in range(len(seqs)) if i != j and dist(seqs[i], seqs[j]) == 1}
             r = acc.call(pyrepseq.find_neighbor_pairs_index, seqs, f)
             if raised(r) or len(r) != len(set(r)) or set(r) != exp_idx:
